@@ -35,6 +35,15 @@ Proof.
     repeat split; congruence.
 Qed.
 
+Lemma m_exists_fields d last t pk x :
+  let x1 := fst (m_exists d last t pk x) in
+  x_log x1 = x_log x /\ x_cnt x1 = x_cnt x /\ x_ro x1 = x_ro x /\ x_maxpk x1 = x_maxpk x /\ x_sps x1 = x_sps x /\
+  x_snaps x1 = x_snaps (touch d last t x).
+Proof.
+  unfold m_exists. pose proof (mget_fields d last t pk x) as H.
+  destruct (mget d last t pk x) as [x1 f]. exact H.
+Qed.
+
 Lemma mscan_fields d last t lo hi x :
   let x1 := fst (mscan d last t lo hi x) in
   x_log x1 = x_log x /\ x_cnt x1 = x_cnt x /\ x_ro x1 = x_ro x /\ x_maxpk x1 = x_maxpk x /\ x_sps x1 = x_sps x /\
@@ -66,8 +75,8 @@ Lemma put_row_some d last isins t pk v x x' :
   Cinv x' /\ x_log x' = x_log x ++ [W t pk (if isins then WIns else WUps) v].
 Proof.
   unfold m_put_row. intros H Hc.
-  destruct (mget d last t pk (note_pk t pk x)) as [x2 found] eqn:Eg.
-  pose proof (mget_fields d last t pk (note_pk t pk x)) as Hg. rewrite Eg in Hg. simpl in Hg.
+  destruct (m_exists d last t pk (note_pk t pk x)) as [x2 found] eqn:Eg.
+  pose proof (m_exists_fields d last t pk (note_pk t pk x)) as Hg. rewrite Eg in Hg. simpl in Hg.
   destruct Hg as [G1 [G2 _]].
   destruct (note_pk_fields t pk x) as [N1 _].
   destruct (negb found && (autoinc t && (pk <=? tg t (x_maxpk x))%Z)); [discriminate|].
@@ -90,8 +99,8 @@ Proof.
   unfold m_ins_auto. intros H Hc. destruct (autoinc t) eqn:Ea; [|discriminate].
   set (pk := (tg t (x_maxpk x) + 1)%Z) in *.
   set (x0 := set_maxpk (ts t pk (x_maxpk x)) x) in *.
-  destruct (mget d last t pk (note_pk t pk x0)) as [x2 found] eqn:Eg.
-  pose proof (mget_fields d last t pk (note_pk t pk x0)) as Hg. rewrite Eg in Hg. simpl in Hg.
+  destruct (m_exists d last t pk (note_pk t pk x0)) as [x2 found] eqn:Eg.
+  pose proof (m_exists_fields d last t pk (note_pk t pk x0)) as Hg. rewrite Eg in Hg. simpl in Hg.
   destruct Hg as [G1 [G2 _]].
   destruct (note_pk_fields t pk x0) as [N1 _].
   destruct found; [discriminate|].
